@@ -500,8 +500,8 @@ where
         };
 
         let parts: Result<_> = if use_charset_declared {
-            self.buffer
-                .split(|v| *v == b'\\')
+            split_text_values(&self.buffer, &self.text.name())
+                .into_iter()
                 .map(|slice| {
                     self.text.decode(slice).context(DecodeTextSnafu {
                         position: self.position,
@@ -1190,6 +1190,34 @@ where
             None
         }
     }
+}
+
+/// Split an encoded multi-valued text value at its backslash delimiters.
+///
+/// In GBK and GB18030 the byte 0x5C may also be
+/// the second byte of a two-byte character,
+/// in which case it does not delimit values.
+fn split_text_values<'a>(buffer: &'a [u8], charset_name: &str) -> Vec<&'a [u8]> {
+    if !matches!(charset_name, "GBK" | "GB18030") {
+        return buffer.split(|v| *v == b'\\').collect();
+    }
+    let mut parts = Vec::new();
+    let mut start = 0;
+    let mut i = 0;
+    while i < buffer.len() {
+        if (0x81..=0xFE).contains(&buffer[i]) && i + 1 < buffer.len() {
+            // lead byte: the next byte belongs to the same character
+            i += 2;
+            continue;
+        }
+        if buffer[i] == b'\\' {
+            parts.push(&buffer[start..i]);
+            start = i + 1;
+        }
+        i += 1;
+    }
+    parts.push(&buffer[start..]);
+    parts
 }
 
 /// Remove trailing spaces and null characters.
